@@ -90,6 +90,9 @@ def scenario_for(seed, index, tier):
     # the token may be authenticated / refreshed (its profile changes in
     # place) after the Connection was built around it
     auth_late = auth and rng.random() < 0.4
+    # a session resumed with refresh() has tokens and a profile but no
+    # username of its own
+    auth_no_username = auth and rng.random() < 0.3
     # what the server says on a status connection
     allowed_protos = None
     try:
@@ -162,7 +165,7 @@ def scenario_for(seed, index, tier):
         len(allowed_protos) == 1
     sc = {
         'allowed': allowed, 'initial': initial, 'call': call, 'auth': auth,
-        'auth_late': auth_late,
+        'auth_late': auth_late, 'auth_no_username': auth_no_username,
         'host': rng.choice(HOSTS), 'port': rng.choice(PORTS),
         'handle_status': hs, 'handle_ping': hp, 'status': status,
         'server': {'conns': [
@@ -323,8 +326,9 @@ def execute(scenario, tape):
         if scenario['initial'] is not None:
             kw['initial_version'] = scenario['initial']
         if scenario['auth']:
-            tok = authentication.AuthenticationToken('user@example.org',
-                                                     'access', 'client')
+            tok = authentication.AuthenticationToken(
+                None if scenario.get('auth_no_username')
+                else 'user@example.org', 'access', 'client')
             tok.profile.id_ = 'a' * 32
             tok.profile.name = 'ProfileName'
             kw['auth_token'] = tok
